@@ -703,7 +703,9 @@ def evaluate_payload_template(input, context, template):
                 if isinstance(item, (dict, list)):
                     target.append(clone(item))
                 else:
-                    target.append(evaluate(item))
+                    # Array items are not object members, so are never paths or
+                    # Intrinsic Functions even if they are strings ending in ".$"
+                    target.append(item)
         elif isinstance(template, dict):
             target = {}
             for k, v in template.items():
